@@ -102,6 +102,8 @@ class LazyList:
                 if stop < 0:
                     stop = len(self) + stop
                 for i in range(start or 0, stop, step):
+                    if not self.has_ind(i):
+                        break  # a[x:y] stops at the end, it does not wrap
                     ret.append(self[i])
                 return ret
         else:
